@@ -92,6 +92,7 @@ struct Bus {
 	std::function<void(const uint8_t *, int32_t)> on_write_raw;
 	std::function<void(UpFrame &)> on_processed;      // frame known to be fully processed by the receiver
 	std::function<void(UpFrame &)> on_delivered;      // last byte of frame just handed to the receiver
+	std::vector<std::array<uint64_t, 3>> type_dup_once;          // (answer type, n, same/next sequence number): the n-th answer of that type is sent twice
 	bool overtakable_next = false;
 	std::vector<std::array<uint64_t, 3>> type_delay_once;        // (answer type, n, extra us): only the n-th answer of that type is late, so the next one overtakes it
 	std::function<bool(Node &, const ref::Msg &)> on_request;   // return true to suppress default answer
@@ -399,6 +400,7 @@ struct Bus {
 		auto td = type_delays.find(a.type);
 		if (td != type_delays.end() && answered_types[a.type] >= td->second.first) { extra = td->second.second; fired["slow-node"]++; if (extra >= 2000000) fired["delay>=2s"]++; }
 		for (auto &o : type_delay_once) if ((int) o[0] == a.type && answered_types[a.type] == o[1]) { extra += o[2]; overtakable_next = true; fired["answer-late-and-overtakable"]++; }
+		for (auto &o : type_dup_once) if ((int) o[0] == a.type && answered_types[a.type] == o[1]) { Fault df; df.kind = "dup"; df.a = (int64_t) o[2]; fs.push_back(df); }
 		ref::Msg r; r.type = a.type; r.data = a.data;
 		emit_msgs(idx, {r}, fs, resp_delay_us + extra, 0, true);
 	}
